@@ -54,7 +54,15 @@ fn gen_config(rng: &mut Rng) -> (Option<String>, Vec<String>, &'static str) {
     match rng.below(8) {
         0 | 1 => (None, vec![], "absent"),
         2 | 3 => {
-            let toml = format!("[project]\nname = \"x\"\n\n[tool.pytest-language-server]\ndisabled_diagnostics = {:?}\n", listed);
+            // equivalent TOML spellings of the same table
+            let toml = match rng.below(6) {
+                0 => format!("[project]\nname = \"x\"\n\n[tool.pytest-language-server]\ndisabled_diagnostics = {:?}\n", listed),
+                1 => format!("[tool.\"pytest-language-server\"]\ndisabled_diagnostics = {:?}\n", listed),
+                2 => format!("[ tool . pytest-language-server ]\ndisabled_diagnostics = {:?}\n", listed),
+                3 => format!("[tool]\npytest-language-server = {{ disabled_diagnostics = {:?} }}\n", listed),
+                4 => format!("tool.pytest-language-server.disabled_diagnostics = {:?}\n", listed),
+                _ => format!("[tool.pytest-language-server] # settings\r\ndisabled_diagnostics = [\r\n{}]\r\n", listed.iter().map(|c| format!("  '{}',\r\n", c)).collect::<String>()),
+            };
             (Some(toml), listed, "valid")
         }
         4 => {
